@@ -18,6 +18,11 @@
 (*            specification; a disagreement is attributed to a named       *)
 (*            deviation only if the observation equals what the spec       *)
 (*            yields with exactly that deviation set enabled.              *)
+(*            An observation says whether the call RAISED (acc = FALSE) or *)
+(*            came back (acc = TRUE) - with nul = TRUE when what came back *)
+(*            is None / empty: that is acceptance, never a refusal.        *)
+(*            argp / argn: the prefix= / network= argument handed over;    *)
+(*            rd: decoding (pass 1) of the string addr_convert returned.   *)
 (***************************************************************************)
 EXTENDS Checksum, Json, IOUtils, TLC
 
@@ -33,9 +38,21 @@ DecOut(s) == LET d == B58Decode(s)
              IN [d |-> d, f |-> f, hasf |-> HasIO(s), ms |-> MsgsOf(d) \o MsgsOf(f)]
 
 (* ---------------- import paths of the implementation ---------------- *)
-\* address paths: which encodings the function is documented to take
-PB58(p) == p \in {"a2p", "ab58", "deser", "parse", "output"}
-PB32(p) == p \in {"a2p", "ab32", "deser", "parse", "output"}
+\* address paths.  A name without suffix is the call with default arguments; suffixes are the explicit optional
+\* arguments: _b58 / _b32 encoding='base58' / 'bech32', _hex as_hex=True, _pfx prefix=<o.argp> (expected human readable
+\* part), _net network=<o.argn>.  conv* = addr_convert(s, prefix=<o.argp>, encoding=..): decode and re-encode under
+\* another version byte / human readable part.
+A2P   == {"a2p", "a2p_b58", "a2p_b32", "a2p_hex"}             \* addr_to_pubkeyhash
+AB58  == {"ab58", "ab58_hex"}                                 \* addr_base58_to_pubkeyhash
+AB32  == {"ab32", "ab32_hex", "ab32_pfx"}                     \* addr_bech32_to_pubkeyhash
+DESER == {"deser", "deser_b58", "deser_b32", "deser_net"}     \* deserialize_address
+PARSE == {"parse", "parse_b58", "parse_b32", "parse_net"}     \* Address.parse
+CONV  == {"conv", "conv_b58", "conv_b32"}                     \* addr_convert
+\* which encodings the call is documented to take
+PB58(p) == p \in {"a2p", "a2p_b58", "a2p_hex", "deser", "deser_b58", "deser_net", "parse", "parse_b58", "parse_net",
+                  "output", "conv", "conv_b58"} \cup AB58
+PB32(p) == p \in {"a2p", "a2p_b32", "a2p_hex", "deser", "deser_b32", "deser_net", "parse", "parse_b32", "parse_net",
+                  "output", "conv", "conv_b32"} \cup AB32
 \* key paths: which kinds of Base58Check strings the function is documented to import (a valid string of such a kind
 \* must be accepted) ...
 PKinds(p) == CASE p = "key"      -> {"wif"}
@@ -56,20 +73,31 @@ DevParseWv == "address-parse-drops-witness-version"   \* Address.parse does not 
                                                \* object of a v1..v16 address re-encodes as the v0 (Bech32) address
 DevKeyXpub == "key-class-reads-xpub-string-as-bytes"  \* Key(s): a string whose first four decoded bytes are an extended
                                                \* PUBLIC key version is not decoded at all; its characters become the key
+DevA2pNone == "a2p-explicit-base58-returns-none"      \* addr_to_pubkeyhash(s, encoding='base58'): when the Base58 decoder
+                                               \* refuses s for its ALPHABET or its LENGTH the function returns None instead
+                                               \* of raising (a checksum failure does raise); addr_convert(s, prefix,
+                                               \* encoding='base58') then returns Base58Check(prefix || empty hash)
+DevNetArg == "bech32-network-argument-ignored"        \* deserialize_address / Address.parse (.., network=n): for a Bech32
+                                               \* string n is not compared with the human readable part (which need not
+                                               \* belong to any network either); Address.parse reports network n
 
 \* fixed order (names of combinations are joined in this order)
-DevOrder == <<DevFold, DevPad, DevAddrLen, DevAddrVer, DevHrp, DevUpper, DevParseWv, DevWif01, DevWifLen, DevXCheck, DevXLen,
-              DevXData, Dev38, DevKeyXpub>>
+DevOrder == <<DevFold, DevPad, DevAddrLen, DevAddrVer, DevHrp, DevUpper, DevParseWv, DevA2pNone, DevNetArg, DevWif01, DevWifLen, DevXCheck,
+              DevXLen, DevXData, Dev38, DevKeyXpub>>
 
 \* which import paths a deviation describes (elsewhere the same symptom is a violation)
 DevApplies(dv, p) ==
-    CASE dv = DevPad     -> p \in {"a2p", "ab58", "deser", "parse", "output"}
+    CASE dv = DevPad     -> p \in A2P \cup AB58 \cup DESER \cup PARSE \cup CONV \cup {"output"}
       [] dv = DevFold    -> TRUE
-      [] dv = DevAddrLen -> p \in {"deser", "parse", "output"}
-      [] dv = DevAddrVer -> p \in {"a2p", "ab58", "deser"}
-      [] dv = DevHrp     -> p \in {"a2p", "ab32", "deser"}
-      [] dv = DevUpper   -> p = "deser"
-      [] dv = DevParseWv -> p = "parse"
+      [] dv = DevAddrLen -> p \in DESER \cup PARSE \cup {"output", "conv"}
+      \* the decoders that are given no network accept any version byte / human readable part (with network= or
+      \* prefix= given they must not)
+      [] dv = DevAddrVer -> p \in A2P \cup AB58 \cup CONV \cup {"deser", "deser_b58"}
+      [] dv = DevHrp     -> p \in A2P \cup AB32 \cup CONV \cup {"deser", "deser_b32"}
+      [] dv = DevUpper   -> p \in DESER
+      [] dv = DevParseWv -> p \in PARSE
+      [] dv = DevA2pNone -> p \in {"a2p_b58", "conv_b58"}
+      [] dv = DevNetArg  -> p \in {"deser_net", "parse_net"}
       [] dv = DevXCheck  -> p \in {"hdkey", "hdfw", "wallet", "hdkey_pw"}
       [] dv = DevXLen    -> p \in {"hdkey", "hdkey_pw", "wallet"}
       [] dv = DevXData   -> p \in {"hdkey", "hdfw", "wallet", "hdkey_pw"}
@@ -82,11 +110,14 @@ DevApplies(dv, p) ==
 (* ---------------- expected observation of one path under deviation set D ---------------- *)
 NoExp(why) == [acc |-> FALSE, why |-> why, cls |-> "", pay |-> <<>>, ver |-> <<>>, wv |-> 0 - 1, nets |-> {}, chknet |-> FALSE,
                re |-> <<>>, chkre |-> FALSE, comp |-> 0, priv |-> FALSE, hd |-> <<>>, chkhd |-> FALSE, mayrefuse |-> FALSE,
-               chkpay |-> TRUE]
+               chkpay |-> TRUE,
+               nul |-> FALSE,                     \* the call returns None / an empty value without raising
+               conv |-> "", cbytes |-> <<>>]      \* addr_convert: kind of result and (Base58) its decoded bytes
 
 \* seg: SegwitDecodeD(r.s, {DevHrp}), computed once per record (the HRP table is the only rule a deviation relaxes)
-Exp(r, seg, p, D) ==
-    LET H(m) == LET c == {i \in 1..Len(r.hs) : r.hs[i].m = m}
+Exp(r, seg, o, D) ==
+    LET p == o.p
+        H(m) == LET c == {i \in 1..Len(r.hs) : r.hs[i].m = m}
                 IN IF c = {} THEN <<0 - 1>> ELSE r.hs[CHOOSE i \in c : TRUE].h
         dd   == IF DevFold \in D /\ r.hasf THEN r.f ELSE r.d
         K(kind) == IF dd.ok THEN CheckBytesD(dd.b, kind, H, D) ELSE Reject("alphabet")
@@ -94,18 +125,36 @@ Exp(r, seg, p, D) ==
     IF r.fam = "addr" THEN
         LET r58 == IF PB58(p) THEN K("addr") ELSE Reject("not-taken")
             r32 == IF ~PB32(p) THEN B32Reject("not-taken")
-                   ELSE IF seg.ok /\ HrpNets(seg.hrp) = {} /\ ~(DevHrp \in D) THEN B32Reject("hrp") ELSE seg
-        IN IF r58.ok THEN
-               LET nets == IF AddrNets[r58.p[1]] = {} THEN {""} ELSE AddrNets[r58.p[1]] IN
+                   ELSE IF seg.ok /\ HrpNets(seg.hrp) = {} /\ ~(DevHrp \in D) /\ ~(DevNetArg \in D) THEN B32Reject("hrp")
+                   ELSE seg
+        IN IF DevA2pNone \in D /\ p \in {"a2p_b58", "conv_b58"} /\ ~r58.ok /\ r58.why \in {"alphabet", "length"} THEN
+               IF p = "a2p_b58" THEN [NoExp("") EXCEPT !.acc = TRUE, !.cls = "none", !.nul = TRUE]
+               ELSE [NoExp("") EXCEPT !.acc = TRUE, !.cls = "convert-empty", !.chkpay = FALSE, !.conv = "empty",
+                                      !.cbytes = o.argp \o H(o.argp)]
+           ELSE IF r58.ok /\ o.argn # "" /\ ~(o.argn \in AddrNets[r58.p[1]]) THEN NoExp("network-argument")
+           ELSE IF r58.ok THEN
+               LET nets == IF AddrNets[r58.p[1]] = {} THEN {""} ELSE AddrNets[r58.p[1]]
+                   hash == SubSeq(r58.p, 2, Len(r58.p))
+               IN
+               IF p \in CONV THEN [NoExp("") EXCEPT !.acc = TRUE, !.cls = "base58", !.pay = hash, !.chkpay = FALSE,
+                                                    !.conv = "base58", !.cbytes = o.argp \o hash \o H(o.argp \o hash)]
+               ELSE
                [NoExp("") EXCEPT !.acc = TRUE, !.cls = "base58", !.pay = SubSeq(r58.p, 2, Len(r58.p)), !.ver = <<r58.p[1]>>,
                                  !.nets = nets, !.chknet = TRUE,
                                  !.re = IF D \cap {DevFold, DevPad} = {} THEN r.s ELSE B58Encode(r58.p \o H(r58.p)),
                                  !.chkre = TRUE,
                                  \* Output(address=..) is given no network here: it works on the default network bitcoin
                                  !.mayrefuse = (p = "output" /\ ~("bitcoin" \in nets))]
+           ELSE IF r32.ok /\ p = "ab32_pfx" /\ r32.hrp # o.argp THEN NoExp("prefix-argument")
+           ELSE IF r32.ok /\ o.argn # "" /\ ~(o.argn \in HrpNets(r32.hrp)) /\ ~(DevNetArg \in D) THEN NoExp("network-argument")
+           ELSE IF r32.ok /\ p \in CONV THEN
+               [NoExp("") EXCEPT !.acc = TRUE, !.cls = "bech32", !.pay = r32.prog, !.wv = r32.ver, !.chkpay = FALSE,
+                                 !.conv = "bech32",
+                                 !.mayrefuse = r32.upper \/ ~((r32.ver = 0) \/ (r32.ver = 1 /\ Len(r32.prog) = 32))]
            ELSE IF r32.ok THEN
                LET up   == r32.upper /\ DevUpper \in D
-                   nets == IF up \/ HrpNets(r32.hrp) = {} THEN {""} ELSE HrpNets(r32.hrp)
+                   nets == IF DevNetArg \in D /\ p \in PARSE THEN {o.argn}
+                           ELSE IF up \/ HrpNets(r32.hrp) = {} THEN {""} ELSE HrpNets(r32.hrp)
                    std  == (r32.ver = 0) \/ (r32.ver = 1 /\ Len(r32.prog) = 32)       \* P2WPKH, P2WSH, P2TR
                IN
                [NoExp("") EXCEPT !.acc = TRUE, !.cls = "bech32", !.pay = r32.prog, !.wv = r32.ver,
@@ -162,8 +211,27 @@ Exp(r, seg, p, D) ==
                       ELSE IF "wif" \in ks THEN rw.why ELSE rx.why)
 
 \* first clause in which observation o differs from expectation e ("" = agrees)
+\* result of addr_convert: the returned string must be the address of the same hash under the requested version byte
+\* (Base58: judged on its decoding o.rd, Base58 being a bijection) or human readable part (the witness version of a
+\* converted v1+ address is not judged here)
+ConvOk(o, e) ==
+    CASE e.conv \in {"base58", "empty"} -> o.rd.ok /\ o.rd.b = e.cbytes
+      [] e.conv = "bech32" -> IF e.wv = 0
+                              THEN LET x == SegwitDecodeD(o.re, {DevHrp}) IN x.ok /\ x.hrp = o.argp /\ x.prog = e.pay /\ x.ver = 0
+                              \* v1..v16: only the generic layer (human readable part, checksum, program); which
+                              \* witness version a converted address carries belongs to C05
+                              ELSE LET x == Bech32Parse(o.re) IN
+                                   /\ x.ok /\ x.hrp = o.argp /\ x.const \in {Bech32Const, Bech32mConst} /\ x.data # <<>>
+                                   /\ From5(Tail(x.data)) = [ok |-> TRUE, b |-> e.pay]
+      [] OTHER -> TRUE
+
+\* The property: an invalid string RAISES.  A call that comes back without raising has accepted the string, also when
+\* what it returns is None / empty (o.nul): nothing in the documentation of these functions makes a return value a
+\* failure signal.
 Clause(o, e) ==
-    IF o.acc /\ ~e.acc THEN "accepted-invalid-" \o e.why
+    IF o.nul /\ ~e.nul THEN (IF e.acc THEN "returned-nothing-for-valid" ELSE "returned-nothing-without-raising-" \o e.why)
+    ELSE IF e.nul THEN (IF o.nul THEN "" ELSE IF o.acc THEN "value-where-none-predicted" ELSE "raised-where-none-predicted")
+    ELSE IF o.acc /\ ~e.acc THEN "accepted-invalid-" \o e.why
     ELSE IF ~o.acc /\ e.acc THEN (IF e.mayrefuse THEN "" ELSE "rejected-valid")
     ELSE IF ~o.acc THEN ""
     ELSE IF e.chkpay /\ o.pay # e.pay THEN "payload"
@@ -173,6 +241,7 @@ Clause(o, e) ==
     ELSE IF o.iskey /\ e.chkpay /\ (o.priv # e.priv \/ o.comp # e.comp) THEN "key-flags"
     ELSE IF o.hashd /\ e.chkhd /\ o.hd # e.hd THEN "hd-fields"
     ELSE IF o.rok /\ e.chkre /\ o.re # e.re THEN "reencode"
+    ELSE IF e.conv # "" /\ ~ConvOk(o, e) THEN "converted-address"
     ELSE ""
 
 RECURSIVE JoinNames(_, _)
@@ -183,12 +252,12 @@ JoinNames(S, i) == IF i > Len(DevOrder) THEN ""
 Needed(r) == Range(MsgsOf(r.d) \o MsgsOf(r.f))
 \* the smallest set of applicable deviations under which the specification yields exactly the observation
 JudgeObs(r, seg, o) ==
-    LET e0 == Exp(r, seg, o.p, {})
+    LET e0 == Exp(r, seg, o, {})
         c0 == Clause(o, e0)
         out(v, dev) == [p |-> o.p, v |-> v, dev |-> dev, exp |-> [acc |-> e0.acc, pay |-> e0.pay, why |-> e0.why]]
     IN IF c0 = "" THEN out("ok", "")
        ELSE LET app  == {dv \in Range(DevOrder) : DevApplies(dv, o.p)}
-                hits == {S \in SUBSET app : S # {} /\ Cardinality(S) <= 3 /\ Clause(o, Exp(r, seg, o.p, S)) = ""}
+                hits == {S \in SUBSET app : S # {} /\ Cardinality(S) <= 3 /\ Clause(o, Exp(r, seg, o, S)) = ""}
             IN IF hits = {} THEN out(c0, "")
                ELSE out(c0, JoinNames(CHOOSE S \in hits : \A T \in hits : Cardinality(S) <= Cardinality(T), 1))
 
